@@ -197,3 +197,20 @@ def faithless_dag(draw, p_min=3, p_max=8):
             if a != kk:
                 T[a][kk] = sum(T[a][j] * W[j][kk] for j in pas)
     return [[fstr(x) for x in row] for row in W]
+
+
+WIDE_SIZES = [13, 16, 17, 24, 31, 32, 33, 48, 63, 64, 65, 66, 70]
+
+
+@st.composite
+def embedded_wide(draw, A):
+    """Like `embedded`, but into one of the sizes around powers of two up to 70 (word-size and threshold effects)."""
+    p = len(A)
+    p_big = draw(st.sampled_from([s for s in WIDE_SIZES if s >= p]))
+    lab = draw(st.permutations(list(range(p_big))))[:p]
+    B = [[0] * p_big for _ in range(p_big)]
+    for i in range(p):
+        for j in range(p):
+            if A[i][j] != 0:
+                B[lab[i]][lab[j]] = A[i][j]
+    return B
